@@ -72,8 +72,8 @@ Example C20_ex_store :
   sub_sig ex_b 1 "hist.topic" MExact /\ nget (b_hist ex_b) 1%N = Some (mkHStore 2 []) /\
   store_ok (mkHStore 2 []) /\
   (* four publications, one restricted, limit 2: the ring wrapped *)
-  map h_pub (hist_ref ex_cfg 1 "hist.topic" MExact ex_pubs) = [101; 104; 106]%N /\
-  option_map (fun st => map h_pub (hs_entries st)) (nget (b_hist (brun ex_cfg ex_b ex_pubs)) 1%N) = Some [104; 106]%N /\
+  map h_pub (hist_ref ex_cfg 1 "hist.topic" MExact ex_pubs) = [101; 104; 107]%N /\
+  option_map (fun st => map h_pub (hs_entries st)) (nget (b_hist (brun ex_cfg ex_b ex_pubs)) 1%N) = Some [104; 107]%N /\
   (* ... while every subscriber left *)
   option_map sub_subs (nget (b_subs (brun ex_cfg ex_b ex_pubs)) 1%N) = Some [] /\
   In (mkHistCfg "hist" "prefix" 3) (c_hist ex_cfg) /\ Forall (fun c => (1 <= hc_limit c)%N) (c_hist ex_cfg).
